@@ -556,6 +556,73 @@ pub fn run() -> ConfResult {
             mismatches.push(format!("eventfd/epoll:\n   real {:?}\n   sim  {:?}", real_v, sim_v));
         }
     }
+    // edge-triggered and one-shot registrations (a server that registers its kill switch or a
+    // stream that way must be seen to lose events)
+    {
+        const ET: u32 = 1 << 31;
+        const ONESHOT: u32 = 1 << 30;
+        // SAFETY: plain descriptor syscalls with valid arguments.
+        let real_v: Vec<String> = unsafe {
+            let mut v = Vec::new();
+            let ep = libc::epoll_create1(0);
+            let e1 = libc::eventfd(0, libc::EFD_NONBLOCK);
+            let e2 = libc::eventfd(0, libc::EFD_NONBLOCK);
+            let mut ev = libc::epoll_event { events: IN | ET, u64: 1 };
+            libc::epoll_ctl(ep, libc::EPOLL_CTL_ADD, e1, &mut ev);
+            let mut ev2 = libc::epoll_event { events: IN | ONESHOT, u64: 2 };
+            libc::epoll_ctl(ep, libc::EPOLL_CTL_ADD, e2, &mut ev2);
+            let mut out = [libc::epoll_event { events: 0, u64: 0 }; 8];
+            let one: u64 = 1;
+            let w = |fd| libc::write(fd, &one as *const u64 as *const libc::c_void, 8);
+            w(e1);
+            v.push(format!("et first={}", libc::epoll_wait(ep, out.as_mut_ptr(), 8, 0)));
+            v.push(format!("et again={}", libc::epoll_wait(ep, out.as_mut_ptr(), 8, 0)));
+            w(e1);
+            v.push(format!("et after second write={}", libc::epoll_wait(ep, out.as_mut_ptr(), 8, 0)));
+            v.push(format!("et again={}", libc::epoll_wait(ep, out.as_mut_ptr(), 8, 0)));
+            w(e2);
+            v.push(format!("oneshot first={}", libc::epoll_wait(ep, out.as_mut_ptr(), 8, 0)));
+            w(e2);
+            v.push(format!("oneshot after second write={}", libc::epoll_wait(ep, out.as_mut_ptr(), 8, 0)));
+            libc::epoll_ctl(ep, libc::EPOLL_CTL_MOD, e2, &mut ev2);
+            v.push(format!("oneshot re-armed={}", libc::epoll_wait(ep, out.as_mut_ptr(), 8, 0)));
+            libc::epoll_ctl(ep, libc::EPOLL_CTL_MOD, e1, &mut ev);
+            v.push(format!("et re-armed by mod={}", libc::epoll_wait(ep, out.as_mut_ptr(), 8, 0)));
+            libc::close(e1);
+            libc::close(e2);
+            libc::close(ep);
+            v
+        };
+        world::reset(Config::default());
+        let sim_v: Vec<String> = world::with(|w| {
+            let mut v = Vec::new();
+            let ep = w.epoll_create();
+            let e1 = w.eventfd_create(true);
+            let e2 = w.eventfd_create(true);
+            let _ = w.epoll_ctl(ep, 1, e1, IN | ET, 1);
+            let _ = w.epoll_ctl(ep, 1, e2, IN | ONESHOT, 2);
+            let n = |w: &mut world::World| w.epoll_wait(ep, 0, 8).unwrap().unwrap().len();
+            let _ = w.eventfd_write(e1, 1);
+            v.push(format!("et first={}", n(w)));
+            v.push(format!("et again={}", n(w)));
+            let _ = w.eventfd_write(e1, 1);
+            v.push(format!("et after second write={}", n(w)));
+            v.push(format!("et again={}", n(w)));
+            let _ = w.eventfd_write(e2, 1);
+            v.push(format!("oneshot first={}", n(w)));
+            let _ = w.eventfd_write(e2, 1);
+            v.push(format!("oneshot after second write={}", n(w)));
+            let _ = w.epoll_ctl(ep, 3, e2, IN | ONESHOT, 2);
+            v.push(format!("oneshot re-armed={}", n(w)));
+            let _ = w.epoll_ctl(ep, 3, e1, IN | ET, 1);
+            v.push(format!("et re-armed by mod={}", n(w)));
+            v
+        });
+        scenarios += 1;
+        if real_v != sim_v {
+            mismatches.push(format!("EPOLLET/EPOLLONESHOT:\n   real {:?}\n   sim  {:?}", real_v, sim_v));
+        }
+    }
     // the listener becomes readable with a pending connection; the server's fd table
     {
         world::reset(Config::default());
